@@ -12,7 +12,7 @@ from bumble import l2cap as _l2cap
 from pyvc import ext_c13
 from pyvc import ext_c16  # noqa: F401  (iteration over symbolic maps)
 from pyvc.ext_c16 import forall_keys
-from pyvc.contracts import (Any, Bool, Callback, Const, DequeOf, EmptyDict, Event, Inst, Int, IntRange, ListOf, MapOf, OneOf, Opaque, Opt, TupleOf, contract,
+from pyvc.contracts import (Any, Bool, Bytes, Callback, Const, DequeOf, EmptyDict, Event, Inst, Int, IntRange, ListOf, MapOf, OneOf, Opaque, Opt, TupleOf, contract,
                             forall, iff, implies, lemma, mget, mhas, model)
 
 from contracts.c16_env import Fut, CANCELLED, EXCEPTION, FUT, FUT_INLINE, PENDING, RESULT, fst, fut_released
@@ -585,6 +585,8 @@ model('contracts.c16_env:KeyView#channels', fields=dict(key=HANDLE, present=Bool
 model('contracts.c16_env:KeyView#coc', fields=dict(key=HANDLE, present=Bool, value=MapOf('bumble.l2cap:LeCreditBasedChannel#c16rec')))
 model('contracts.c16_env:KeyView#pending', fields=dict(key=HANDLE, present=Bool, value=MapOf('contracts.c16_env:Fut#pending')))
 model('contracts.c16_env:KeyView#ids', fields=dict(key=HANDLE, present=Bool, value=IntRange(0, 255)))
+# le_coc_requests[handle]: the LE credit-based connection requests waiting for their response on that link (only dropped here)
+model('contracts.c16_env:KeyView#reqs', fields=dict(key=HANDLE, present=Bool, value=IntRange(0, 255)))
 model(
     'bumble.l2cap:ChannelManager#c16',
     fields=dict(
@@ -592,6 +594,7 @@ model(
         le_coc_channels=Inst('contracts.c16_env:KeyView#coc'),
         pending_credit_based_connections=Inst('contracts.c16_env:KeyView#pending'),
         identifiers=Inst('contracts.c16_env:KeyView#ids'),
+        le_coc_requests=Inst('contracts.c16_env:KeyView#reqs'),
     ),
 )
 MANAGER = Inst('bumble.l2cap:ChannelManager#c16')
@@ -599,13 +602,13 @@ L2_GHOST = dict(c=CID, i=IntRange(0, 255), ab_src=Int, ab_dst=Int)
 
 
 def tables_of(self):
-    return [self.channels, self.le_coc_channels, self.pending_credit_based_connections, self.identifiers]
+    return [self.channels, self.le_coc_channels, self.pending_credit_based_connections, self.identifiers, self.le_coc_requests]
 
 
 def l2_pre(self, connection_handle):
     return [
         self.channels.key == connection_handle and self.le_coc_channels.key == connection_handle,
-        self.pending_credit_based_connections.key == connection_handle and self.identifiers.key == connection_handle,
+        self.pending_credit_based_connections.key == connection_handle and self.identifiers.key == connection_handle and self.le_coc_requests.key == connection_handle,
         # table invariant (C09): a channel is registered under its own source CID / its peer's CID
         forall_keys(self.channels.value, lambda k: mget(self.channels.value, k, 'source_cid') == k),
         forall_keys(self.le_coc_channels.value, lambda k: mget(self.le_coc_channels.value, k, 'destination_cid') == k),
@@ -613,7 +616,8 @@ def l2_pre(self, connection_handle):
 
 
 def l2_emptied(self):
-    return not self.channels.present and not self.le_coc_channels.present and not self.pending_credit_based_connections.present and not self.identifiers.present
+    return (not self.channels.present and not self.le_coc_channels.present and not self.pending_credit_based_connections.present and not self.identifiers.present
+            and not self.le_coc_requests.present)
 
 
 def pending_same_keys(self, old):
@@ -652,7 +656,7 @@ contract(
         2: lambda self, old, ghost, _seen: pending_same_keys(self, old) + [pending_released(self, old, ghost.i, mhas(_seen, ghost.i))],
     },
     loop_modifies={0: ['ghost.ab_src'], 1: ['ghost.ab_dst'], 2: ['self.pending_credit_based_connections.value']},
-    modifies=['self.channels.present', 'self.le_coc_channels.present', 'self.pending_credit_based_connections.present', 'self.identifiers.present',
+    modifies=['self.channels.present', 'self.le_coc_channels.present', 'self.pending_credit_based_connections.present', 'self.identifiers.present', 'self.le_coc_requests.present',
               'self.pending_credit_based_connections.value', 'ghost.ab_src', 'ghost.ab_dst'],
     inline=['KeyView.*'] + FUT_INLINE,
 )
@@ -679,7 +683,8 @@ model(
 )
 model(
     'bumble.l2cap:LeCreditBasedChannel#c16',
-    fields=dict(state=OneOf(*_l2cap.LeCreditBasedChannel.State), connection_result=Opt(FUT), disconnection_result=Opt(FUT), manager=Inst('ghost:ChannelManager#c16a')),
+    fields=dict(state=OneOf(*_l2cap.LeCreditBasedChannel.State), connection_result=Opt(FUT), disconnection_result=Opt(FUT), manager=Inst('ghost:ChannelManager#c16a'),
+                out_queue=DequeOf(Bytes), out_sdu=Opt(Bytes), drained=Event()),
     methods={'emit': Callback('emit', effect=ch_emit)},
 )
 CH_GHOST = dict(closes=Int, closed_told=Int)
@@ -726,6 +731,8 @@ def lemma_le_coc_abort(ch, ghost):
     # connect() and disconnect() await their futures bare: link loss must finish both
     assert fut_released(connecting) and ch.connection_result is None, 'connect-waiter-released'
     assert fut_released(disconnecting) and ch.disconnection_result is None, 'disconnect-waiter-released'
+    # whoever waits in drain() is released too: nothing is left to send on a dead link
+    assert len(ch.out_queue) == 0 and ch.out_sdu is None and ch.drained.is_set(), 'drain-waiter-released'
     if state0 == LE.CONNECTED or state0 == LE.DISCONNECTING:
         assert ch.state == LE.DISCONNECTED and ghost.closes == closes0 + 1 and ghost.closed_told == told0 + 1, 'connected-channel-closed-once'
     else:
@@ -738,8 +745,9 @@ lemma(
     prop='C16',
     params=dict(ch=Inst('bumble.l2cap:LeCreditBasedChannel#c16')),
     ghost=CH_GHOST,
-    modifies=['ch.state', 'ch.connection_result', 'ch.disconnection_result', 'ch.connection_result.st', 'ch.disconnection_result.st', 'ghost.closes', 'ghost.closed_told'],
-    inline=['LeCreditBasedChannel.abort', 'LeCreditBasedChannel._change_state'] + FUT_INLINE,
+    modifies=['ch.state', 'ch.connection_result', 'ch.disconnection_result', 'ch.connection_result.st', 'ch.disconnection_result.st', 'ghost.closes', 'ghost.closed_told',
+              'ch.out_queue', 'ch.out_sdu', 'ch.drained'],
+    inline=['LeCreditBasedChannel.abort', 'LeCreditBasedChannel._change_state', 'LeCreditBasedChannel.flush_output'] + FUT_INLINE,
     note='no exception may escape LeCreditBasedChannel.abort (it runs inside the loops of ChannelManager.on_disconnection)',
 )
 
